@@ -408,6 +408,8 @@ class DeviceSession:
             return
         if self.noise_stage == 1:
             self.env.log("rx_noise_handshake", sess=self.idx, n=len(body))
+            if getattr(dev, "noise_mute", False):
+                return  # accepts TCP, reads the client's hello + handshake, never answers (handshake stays pending)
             r = noise_ref.Responder(dev.noise_key)
             try:
                 answer = r.accept_client_handshake(body, getattr(dev, 'noise_hs_payload', b''))
